@@ -82,6 +82,9 @@ def universe():
     # labels of several levels: a series on a MultiIndex against same-length series on a flat index / on an index with another number of levels
     u += [{'$srmi': [[['a', 'b'], ['a', 'c']], [1.0, 2.0]]}, {'$srmi': [[['a', 'b'], ['a', 'c']], [1.0, 3.0]]}, {'$srmi': [[['a', 'b', 'x'], ['a', 'c', 'x']], [1.0, 2.0]]}, {'$sr': [['a', 'b'], [1.0, 2.0]]},
           {'$srmi': [[['a', 'b'], ['a', 'c'], ['b', 'c']], [1.0, 2.0, 3.0]]}, {'$srmi': [[['a', 'b', 'c'], ['a', 'c', 'c'], ['b', 'c', 'c']], [1.0, 2.0, 3.0]]}, [{'$srmi': [[['a', 'b'], ['a', 'c']], [1.0, 2.0]]}]]
+    # cells that are equal without being the same bits: 0.0 and -0.0, NaNs of another bit pattern
+    u += [A('float64', [0.0, 1.0]), A('float64', [-0.0, 1.0]), A('float64', [1.0, {'$nan': 'neg'}]), A('float64', [1.0, {'$nan': 'np'}]), {'$ts': [IDX, [0.0, -0.0, {'$nan': 'neg'}]]}, {'$ts': [IDX, [-0.0, 0.0, {'$nan': 'np'}]]},
+          [0.0], [-0.0], {'$nan': 'neg'}, [{'$nan': 'neg'}]]
     # one decimal fraction at two precisions next to the python float
     u += [{'$np': ['float32', 0.1]}, 0.1, {'$np': ['float64', 0.1]}, [{'$np': ['float32', 0.1]}], [0.1]]
     NAT, NATD, NATT = {'$np': ['datetime64[ns]', 'NaT']}, {'$np': ['datetime64[D]', 'NaT']}, {'$np': ['timedelta64[s]', 'NaT']}
